@@ -700,7 +700,7 @@ func verifStageMatrix(r *gen.Rand) []vsOp {
 // duplicate of a file that is validated and held for its predecessor arrives,
 // then the receiver restarts, then the predecessor arrives (C06, C05)
 // kind < 0: one of the scenarios at random; otherwise the scenario with that number (0 g, 1 f, 2 e, 3 d,
-// 4 c, 5 a, 6 b, 7 h, 8 i, 9 j, 10 k), variant selecting among its main alternatives - the first lines of every run go through
+// 4 c, 5 a, 6 b, 7 h, 8 i, 9 j, 10 k, 11 l, 12 m, 13 n), variant selecting among its main alternatives - the first lines of every run go through
 // all of them systematically
 func verifStageMatrix2(r *gen.Rand, kind, variant int) []vsOp {
 	sel := func(k, num, den int) bool {
@@ -739,6 +739,77 @@ func verifStageMatrix2(r *gen.Rand, kind, variant int) []vsOp {
 		recv(f, 0, len(f.content))
 	}
 	names := [][2]string{{"site/data.bin", "site/next.bin"}, {"a", "b"}, {"g.1", "g.2"}, {"d/e/x", "d/y"}}[r.Intn(4)]
+	if sel(13, 1, 14) {
+		// (n) a file is held for its predecessor; a NEW version of it arrives completely but damaged and fails
+		// validation (its complete body and companion stay staged, no partial is left); the receiver
+		// restarts; the predecessor arrives; the sender, told "failed", sends the new version again
+		W := mk(names[0], "", 2+r.Intn(6))
+		X1 := mk(names[1], names[0], 4+r.Intn(8))
+		X2 := mk(names[1], names[0], 4+r.Intn(8))
+		whole(X1)
+		ops = append(ops, vsOp{kind: "ST"})
+		bad := append([]byte{}, X2.content...)
+		bad[len(bad)-1] ^= 0x5a
+		h := len(X2.content) / 2
+		prep(X2)
+		ops = append(ops, vsOp{kind: "RC", part: part(X2, 0, h), data: bad[:h]})
+		ops = append(ops, vsOp{kind: "RC", part: part(X2, h, len(X2.content)), data: bad[h:]})
+		ops = append(ops, vsOp{kind: "ST"}, vsOp{kind: "RS"}, vsOp{kind: "ST"},
+			vsOp{kind: "SV", name: X2.name, num: -3600, part: vsPart{hash: X2.hash}})
+		whole(W)
+		ops = append(ops, vsOp{kind: "ST"}, vsOp{kind: "SV", name: X2.name, num: -3600, part: vsPart{hash: X2.hash}})
+		whole(X2)
+		ops = append(ops, vsOp{kind: "ST"}, vsOp{kind: "SQ", name: X2.name, num: -3600})
+		return ops
+	}
+	if sel(12, 1, 13) {
+		// (m) the parts of one file announce different predecessors (the sender works it out per chunk): the
+		// first names A (delivered), the completing one names B (not there yet): the file is held for B; the
+		// receiver restarts; B arrives
+		A := mk(names[0], "", 2+r.Intn(6))
+		B := mk("q/late", "", 2+r.Intn(6))
+		C := mk(names[1], names[0], 4+r.Intn(8))
+		whole(A)
+		ops = append(ops, vsOp{kind: "ST"})
+		h := len(C.content) / 2
+		prep(C)
+		recv(C, 0, h)
+		p2 := part(C, h, len(C.content))
+		p2.prev = B.name
+		ops = append(ops, vsOp{kind: "RC", part: p2, data: append([]byte{}, C.content[h:]...)}, vsOp{kind: "ST"},
+			vsOp{kind: "SQ", name: C.name, num: -3600})
+		if pickN(3) != 2 {
+			ops = append(ops, vsOp{kind: "RS"}, vsOp{kind: "ST"})
+		}
+		ops = append(ops, vsOp{kind: "SQ", name: C.name, num: -3600})
+		whole(B)
+		ops = append(ops, vsOp{kind: "ST"}, vsOp{kind: "SQ", name: C.name, num: -3600})
+		return ops
+	}
+	if sel(11, 1, 12) {
+		// (l) version 1 of a name is held for predecessor P; version 2 of it - announced with ANOTHER
+		// predecessor Q - arrives and validates (the staged body is version 2's now); P arrives: the
+		// stale entry of version 1 is released; then Q arrives
+		P := mk(names[0], "", 2+r.Intn(6))
+		Q := mk("q/other", "", 2+r.Intn(6))
+		V1 := mk(names[1], names[0], 4+r.Intn(8))
+		V2 := mk(names[1], "q/other", 4+r.Intn(8))
+		whole(V1)
+		ops = append(ops, vsOp{kind: "ST"})
+		whole(V2)
+		ops = append(ops, vsOp{kind: "ST"})
+		if pickN(2) == 0 {
+			whole(P)
+			ops = append(ops, vsOp{kind: "ST"}, vsOp{kind: "SV", name: V2.name, num: -3600, part: vsPart{hash: V2.hash}})
+			whole(Q)
+		} else {
+			whole(Q)
+			ops = append(ops, vsOp{kind: "ST"}, vsOp{kind: "SV", name: V2.name, num: -3600, part: vsPart{hash: V2.hash}})
+			whole(P)
+		}
+		ops = append(ops, vsOp{kind: "ST"}, vsOp{kind: "SV", name: V2.name, num: -3600, part: vsPart{hash: V2.hash}})
+		return ops
+	}
 	if sel(10, 1, 11) {
 		// (k) a name whose old version is known from the receive log only: the cleaner rightly removes a
 		// stalled late duplicate of that old version (a look-up in the log that says yes); then a NEW
@@ -1307,9 +1378,9 @@ func TestVerifStage(t *testing.T) {
 			N = gen.EnvInt("VERIF_STAGE_RANDOM", 5000)
 		}
 		for c := 0; c < N; c++ {
-			if c < 132 {
-				// every directed scenario 12 times, its main alternatives in turn
-				cases = append(cases, verifStageMatrix2(root.Sub(uint64(c)), c%11, c/11))
+			if c < 140 {
+				// every directed scenario 10 times, its main alternatives in turn
+				cases = append(cases, verifStageMatrix2(root.Sub(uint64(c)), c%14, c/14))
 				continue
 			}
 			cases = append(cases, verifStageGen(root.Sub(uint64(c))))
